@@ -106,7 +106,37 @@ Definition decode (x : sx) : option (case * obs) :=
   | _ => None
   end.
 
+(* ---- second kind of case: the LRU cache alone, driven by get/set operations ----
+   observation per operation: the value a get returned, and which of the keys are present afterwards *)
+Inductive lop := LGet (k : str) | LSet (k : str) (v : Z).
+Definition present (k : str) (st : lru Z) : bool := existsb (key_is k) st.
+Fixpoint lru_run (cap : nat) (keys : list str) (ops : list lop) (st : lru Z) : list (option Z * list bool) :=
+  match ops with
+  | [] => []
+  | LGet k :: r => let (o, st') := lru_get k st in (o, map (fun k' => present k' st') keys) :: lru_run cap keys r st'
+  | LSet k v :: r => let st' := lru_set cap k v st in (None, map (fun k' => present k' st') keys) :: lru_run cap keys r st'
+  end.
+Definition lop_of_sx (x : sx) : option lop :=
+  match x with
+  | L [I 0%Z; B k] => Some (LGet k)
+  | L [I 1%Z; B k; I v] => Some (LSet k v)
+  | _ => None
+  end.
+Definition sx_of_lobs (o : option Z * list bool) : sx :=
+  L [match fst o with Some z => L [I z] | None => L [] end; L (map sxBool (snd o))].
+Definition sx_eqb_list (a b : list N) : bool := str_eqb a b.
+Definition entry_lru (cap : sx) (keys : sx) (ops : sx) (io : sx) : sx :=
+  match asNat cap, asListOf asB keys, asListOf lop_of_sx ops with
+  | Some c, Some ks, Some os =>
+      let m := L (map sx_of_lobs (lru_run c ks os [])) in
+      L [m; L []; L (if str_eqb (print m) (print io) then [] else [sxS "lru_spec"])]
+  | _, _, _ => sxS "bad-case"
+  end.
+
 Definition entry (x : sx) : sx :=
+  match x with
+  | L [I 7%Z; cap; keys; ops; io] => entry_lru cap keys ops io
+  | _ =>
   match decode x with
   | None => sxS "bad-case"
   | Some (c, io) =>
@@ -114,4 +144,5 @@ Definition entry (x : sx) : sx :=
       L [ L (map (fun p => L [sx_of_gres (fst p); sx_of_gres (snd p)]) m);
           L (map sxS (holds c m)); L (map sxS (holds c io));
           L (map (fun q => sx_of_res sx_of_dict (spec_of c q)) (cCalls c)) ]
+  end
   end.
